@@ -28,7 +28,8 @@ def classify(sc, ob, verdict):
     return None
 
 
-def mk(kind, hist, via):
+def mk(kind, hist, via, shared=None):
+    """shared: None, or a pipe built ONCE (an Observable value) that every subscriber without its own `via` subscribes"""
     acts = []
     used = set()
     for h in hist:
@@ -39,12 +40,14 @@ def mk(kind, hist, via):
             p = ["hot", 0]
             if via.get(h[1]):
                 p = via[h[1]](p)
+            elif shared is not None:
+                p = ["ref", 0]
             acts.append(sub(h[1], p))
         elif h[0] == "unsub":
             acts.append(["unsub", h[1]])
         else:
             acts.append(["emit", 0, h[1]])
-    return scn(subjects=[kind], handles=3, script_=acts)
+    return scn(subjects=[kind], handles=3, script_=acts, defs=[shared] if shared is not None else [])
 
 
 VIA = [None, lambda p: op("map", [["id"]], p), lambda p: op("map_to_any", [], p), lambda p: op("filter", [["true"]], p)]
@@ -70,4 +73,10 @@ def generate(rng, tier, focus):
         hist = [rng.choice(alpha) for _ in range(rng.randrange(3, 10))]
         via = {i: rng.choice(VIA) for i in range(3)}
         cases.append((mk(kind, hist, via), {"k": "random"}))
+    # several subscribers of ONE Observable value (let o = subject.observable(); o.subscribe(..) twice)
+    for _ in range(12000 if thorough else 1500):
+        kind = rng.choice(KINDS)
+        hist = [rng.choice(alpha) for _ in range(rng.randrange(3, 10))]
+        shared = rng.choice([["hot", 0], ["hot", 0], op("map", [["id"]], ["hot", 0]), op("filter", [["true"]], ["hot", 0])])
+        cases.append((mk(kind, hist, {}, shared), {"k": "shared-value"}))
     return cases
